@@ -238,7 +238,7 @@ func scenario(m *mon.M, r *rand.Rand, idx int) {
 		a, err = hnet.NewActivity(r, hnet.Options{IndexAddressUtxos: true})
 	}
 	if err != nil {
-		m.Violation("harness-start", err.Error(), nil)
+		m.Inconclusive("harness did not start: " + err.Error())
 		return
 	}
 	defer a.N.Stop()
